@@ -89,13 +89,53 @@ def check_toplevel(ctx, led, rule="C19.toplevel"):
                 if isinstance(st, (ast.Assign, ast.AnnAssign)):
                     val = st.value
                     if isinstance(val, (ast.Dict, ast.List, ast.Set, ast.Call, ast.ListComp, ast.DictComp, ast.SetComp)):
-                        led.violation(
-                            rule, ck, m.where(st), "mutable class attribute shared by every instance: %s" % short(st)
-                        )
+                        # a class-level table is a constant like a module-level one unless some code
+                        # of the package modifies it in place through self / cls / the class name
+                        tname = st.targets[0].id if isinstance(st, ast.Assign) and isinstance(st.targets[0], ast.Name) else None
+                        writer = class_attr_writer(ctx, c, tname) if tname else None
+                        if writer is not None:
+                            led.violation(
+                                rule,
+                                ck,
+                                m.where(st),
+                                "mutable class attribute shared by every instance and modified in place (%s): %s" % (writer, short(st)),
+                            )
+                        elif impure(ctx, m, val) is not None:
+                            led.violation(rule, ck, m.where(st), "class attribute computed by an impure call at import time: %s" % short(st))
                         continue
                     continue
                 led.violation(rule, ck, m.where(st), "class body statement %s" % type(st).__name__)
     return n
+
+
+def class_attr_writer(ctx, c, name):
+    """Description of a construct that modifies the class-level object `name` in place (reached as
+    self.name / cls.name / Class.name without a preceding instance-level rebinding), or None."""
+    from .effects import MUTATORS
+
+    subs = [c] + [k for m_ in ctx.repo.modules.values() for k in m_.classes.values() if c in getattr(k, "bases", [])]
+    for k in subs:
+        rebinds = False
+        init = k.methods.get("__init__")
+        if init is not None:
+            for n in ast.walk(init.node):
+                if isinstance(n, ast.Attribute) and isinstance(n.ctx, ast.Store) and n.attr == name and isinstance(n.value, ast.Name) and n.value.id == (init.params[0] if init.params else "self"):
+                    rebinds = True
+        for f in k.methods.values():
+            recv_names = set([f.params[0]] if f.params else []) | {k.name, c.name}
+            for n in ast.walk(f.node):
+                tgt = None
+                if isinstance(n, ast.Call) and isinstance(n.func, ast.Attribute) and n.func.attr in MUTATORS:
+                    tgt = n.func.value
+                elif isinstance(n, ast.Subscript) and isinstance(n.ctx, (ast.Store, ast.Del)):
+                    tgt = n.value
+                elif isinstance(n, ast.AugAssign):
+                    tgt = n.target
+                if isinstance(tgt, ast.Attribute) and tgt.attr == name and isinstance(tgt.value, ast.Name) and tgt.value.id in recv_names:
+                    if rebinds and tgt.value.id == (f.params[0] if f.params else None) and not f.is_classmethod:
+                        continue
+                    return "%s: %s" % (f.qualname, short(n))
+    return None
 
 
 PURE_CALLS = set(
